@@ -682,8 +682,10 @@ func (e *Exec) probeAttestation(args []Value) {
 	}
 	hh := tb.Concat(hp...)
 	var keys []*SliceV
-	for _, c := range gs.e {
-		keys = append(keys, e.fromHex(e.asBytes(c.v, "ProbeAttestation")))
+	for j, c := range gs.e {
+		k := e.fromHex(e.asBytes(c.v, "ProbeAttestation"))
+		keys = append(keys, k)
+		e.probes = append(e.probes, probeRec{Label: fmt.Sprintf("shape/keylen/%d", j), T: k.len})
 	}
 	var prevAddr *SliceV
 	rc := e.reprCap(att)
